@@ -183,9 +183,9 @@ package protocol
 //@   ensures len(s.unreadBuf) > 0 ==> isProtoBuf(baseof(s.unreadBuf))
 //@   ensures err == nil && len(b) > 0 ==> n > 0
 //@   ensures err != nil ==> n == 0
-//@   ensures err == nil && !s.isClient && s.uploadBytes != nil ==> ghost(added) == old(ghost(added)) + mathint(n)
-//@   ensures err != nil || s.isClient || s.uploadBytes == nil ==> ghost(added) == old(ghost(added))
-//@   ensures s.readDeadline.v == old(s.readDeadline.v)
+//@   ensures [C19] err == nil && !s.isClient && s.uploadBytes != nil ==> ghost(added) == old(ghost(added)) + mathint(n)
+//@   ensures [C19] err != nil || s.isClient || s.uploadBytes == nil ==> ghost(added) == old(ghost(added))
+//@   ensures [C15] s.readDeadline.v == old(s.readDeadline.v)
 //@   loop 1:
 //@     modifies b[..], s.unreadBuf, s.state
 //@     invariant 0 <= n && n <= len(b) && len(b) > 0
@@ -194,4 +194,4 @@ package protocol
 //@     invariant ghost(added) == old(ghost(added))
 //@     invariant len(s.unreadBuf) > 0 ==> isProtoBuf(baseof(s.unreadBuf))
 //@     // C15: whenever a read deadline is in force the wait below is armed with it
-//@     invariant old(s.readDeadline.v) != 0 ==> timeC != nil
+//@     invariant [C15] old(s.readDeadline.v) != 0 ==> timeC != nil
